@@ -65,6 +65,26 @@ theorem generated_prologue (nm : SWCNames7) (extras : List String) :
 example : reSwcText 0 = "^\\s*([0-9]+)\\s+([0-9]+)\\s+" ++ Gen.Consts.reFloat ++ "\\s+" ++ Gen.Consts.reFloat ++ "\\s+" ++ Gen.Consts.reFloat ++ "\\s+" ++
     Gen.Consts.reFloat ++ "\\s+(-?[0-9]+)((?:\\s+[+-.0-9eE]+)*)\\s*$" := by decide +kernel
 
+/-- **`Tree.from_swc` as translated**: a failed read raises `ValueError("fails to read swc: …")` - never a tree from a partial table -;
+a successful one hands `from_data_frame` exactly what `read_swc` returned, with `source` = the absolute path of a `str` name -/
+theorem generated_tree_from_swc {KW DF CM T : Type} [Inhabited KW] [Inhabited DF] [Inhabited CM] [Inhabited T]
+    (R : Src → KW → Except Py.Exc (DF × CM)) (Fd : DF → String → CM → Except Py.Exc T) (abspath : String → String) (src : Src) (kw : KW) :
+    tree_from_swc R Fd abspath src kw =
+      some (match R src kw with
+        | .error e => if e.isA "Exception" then .error wrapExc else .error e
+        | .ok r => Fd r.1 (sourceOf abspath src) r.2) :=
+  tree_from_swc_eq R Fd abspath src kw
+
+/-- **`Tree.from_eswc` as translated**: `extra_cols` = the caller's (none for `None`) followed by the five eswc columns -/
+theorem generated_from_eswc_extras (xs : Option (List String)) : from_eswc_extras xs = some (normExtras xs ++ eswcNames, ()) :=
+  from_eswc_extras_eq xs
+
+example : (match tree_from_swc (KW := Unit) (fun _ _ => (.error ⟨"KeyError", "x", []⟩ : Except Py.Exc (Nat × Nat)))
+      (fun a _ _ => (.ok a : Except Py.Exc Nat)) id (.bytes 1) () with
+    | some (.error e) => decide (e = wrapExc)
+    | _ => false) = true := by decide +kernel
+example : from_eswc_extras (some ["a"]) = some (["a", "level", "mode", "timestamp", "teraflyindex", "feature_value"], ()) := by decide +kernel
+
 /-- **which list becomes which column**: under DISTINCT keys, the column stored under the `j`-th key (`names.cols()` then the extras, in
 order) holds the `j`-th field of every data row, in file order -/
 theorem table_column (cols extras : List String) (rows : List (List Val)) (hnd : (cols ++ extras).Nodup)
